@@ -29,7 +29,10 @@ def _fmt_number(rng, v, style):
             e = 0
         return "%s0.%sE%+03d" % (sign, digits, e)
     if style == "odd":  # legal Fortran-style spellings: +1.5  .5  -.25  3.  1.5E+002  1.5D02
-        kind = rng.choice(["plus", "nolead", "traildot", "exp3", "expnosign", "plain", "long", "negzero"])
+        kind = rng.choice(["plus", "nolead", "traildot", "exp3", "expnosign", "plain", "long", "negzero", "nopoint"])
+        if kind == "nopoint" and v != 0.0:  # integer mantissa with a signed exponent: 3E+00, -2D-01
+            tok = "%.0E" % v
+            return tok.replace("E", rng.choice(["E", "D"]))
         if kind == "long":  # more digits than a double holds
             return "%.24f" % v if abs(v) < 1e6 else "%.7f" % v
         if kind == "negzero" and v == 0.0:
@@ -166,6 +169,8 @@ def gen_spec(rng, fmt=None, max_elements=5, max_shells=8, max_l=7, max_prims=10,
         "trail": rng.choice(["END", "", "nl", "none"]),
         "noise_seed": rng.randrange(1 << 30),
         "inner": rng.choice([0.0, 0.0, 0.15, 0.4]),  # comment / blank lines *inside* shell blocks
+        "scale_field": rng.choice(["1.00", "1.00", "1.00", "1.0", "1.20", "0.95"]),  # third field of a Gaussian94 header
+        "respell": rng.random() < 0.3,  # later blocks of a generalized contraction spell the same exponents differently
     }
     return {"fmt": fmt, "lead": lead_lines, "elements": elements, "layout": layout}
 
@@ -202,6 +207,7 @@ def render(spec):
     lines = list(spec["lead"])
 
     p_inner = lay.get("inner", 0.0)
+    scale_field = lay.get("scale_field", "1.00")
 
     def inner():
         if p_inner and nrng.random() < p_inner:
@@ -242,12 +248,15 @@ def render(spec):
                 lines.extend(rows(sh, sh["cols"]))
             else:
                 if len(sh["l"]) == 2:  # SP: one block, two coefficient columns
-                    lines.append(letters + hsep + str(K) + hsep + "1.00")
+                    lines.append(letters + hsep + str(K) + hsep + scale_field)
                     lines.extend(rows(sh, sh["cols"]))
                 else:  # M columns are written as M consecutive blocks with identical exponents
-                    for col in sh["cols"]:
-                        lines.append(letters + hsep + str(K) + hsep + "1.00")
-                        lines.extend(rows(sh, [col]))
+                    for ci, col in enumerate(sh["cols"]):
+                        lines.append(letters + hsep + str(K) + hsep + scale_field)
+                        if ci and lay.get("respell"):
+                            lines.extend(rows(dict(sh, exps=[respell(t) for t in sh["exps"]]), [col]))
+                        else:
+                            lines.extend(rows(sh, [col]))
             first = False
     if fmt == "gbs":
         lines.append("****")
@@ -260,6 +269,18 @@ def render(spec):
     if tr == "nl":
         text += "\n"
     return text
+
+
+def respell(tok):
+    """Another spelling of exactly the same decimal number (so that it parses to the same double)."""
+    from decimal import Decimal
+
+    d = Decimal(tok.replace("D", "E"))
+    out = "%E" % d if False else format(d, "E")
+    if "." not in out.split("E")[0]:
+        mant, ex = out.split("E")
+        out = mant + ".0E" + ex
+    return out
 
 
 def model_of(spec):
